@@ -200,6 +200,28 @@ func genCliCase(t *rapid.T) cliCase {
 		// thousands of rounds with random placement, on a small and short battle so that it stays cheap
 		*fl = cliFlags{S: rapid.SampledFrom([]int{40, 61, 200}).Draw(t, "Ssmall"), L: 5, C: rapid.SampledFrom([]int{10, 50}).Draw(t, "Csmall"), P: rapid.SampledFrom([]int{0, 2, 8}).Draw(t, "Psmall"), Use88: rapid.Bool().Draw(t, "use88m")}
 	}
+	bsWait := 0
+	bombedSplitter := !manyRounds && gen.Rare(t, "bombedsplitter", 3)
+	if bombedSplitter {
+		// a splitter that is bombed early dies when all its processes have run into the bomb: how
+		// long that takes is the number of processes it had, which the process limit - not the size
+		// of the core - decides
+		*fl = cliFlags{S: rapid.SampledFrom([]int{16, 31, 40, 100}).Draw(t, "Sbs"), L: 5, P: rapid.SampledFrom([]int{64, 200, 0, 1000}).Draw(t, "Pbs"), C: rapid.SampledFrom([]int{100, 150, 300, 600, 3000}).Draw(t, "Cbs")}
+		if rapid.Bool().Draw(t, "bstuned") {
+			// tuned so that the cycle limit falls between "a core's worth of processes has drained"
+			// and "all the processes the limit allows have drained"
+			s := rapid.SampledFrom([]int{16, 31, 40}).Draw(t, "Sbst")
+			bsWait = 8 * s
+			fl.S = s
+			fl.P = rapid.SampledFrom([]int{4 * s, 8 * s, 0}).Draw(t, "Pbst")
+			fl.C = bsWait + 2*s + 12 + rapid.IntRange(0, s/2).Draw(t, "Cbst")
+		}
+	}
+	multiplier := !manyRounds && !bombedSplitter && gen.Rare(t, "multiplier", 3)
+	if multiplier {
+		// products of two fields above 2^32: cores of more than 65536 cells
+		*fl = cliFlags{S: rapid.SampledFrom([]int{100003, 70000, 100000, 131072}).Draw(t, "Smul"), C: rapid.SampledFrom([]int{20, 100}).Draw(t, "Cmul")}
+	}
 	legacy, m, p, cyc, l := fl.expected()
 	if manyRounds {
 		fl.F = 0
@@ -227,7 +249,58 @@ func genCliCase(t *rapid.T) cliCase {
 	}
 	c.P1, c.Fam1 = family(t, "a", legacy, m, p, cyc, l, f)
 	c.P2, c.Fam2 = family(t, "b", legacy, m, p, cyc, l, m-f)
-	if l >= 3 && gen.Rare(t, "trapvssplitter", 3) {
+	if bombedSplitter {
+		split := rc.Program{Items: []rc.Item{ins("SPL", "$", 0, "$", 0), ins("JMP", "$", -1, "$", 0)}}
+		// the sniper waits a little (so that the splitter has grown), then drops its DAT on the SPL
+		wait := int64(rapid.SampledFrom([]int{1, 20, 60, 200}).Draw(t, "bswait"))
+		if bsWait > 0 {
+			wait = int64(bsWait)
+		}
+		// fields are reduced modulo the core size, so the wait is counted by two nested DJNs as in
+		// the timer family: x + (y-1)*(m+1) cycles
+		y := wait/int64(m+1) + 1
+		x := wait - (y-1)*int64(m+1)
+		if x < 1 {
+			x = 1
+		}
+		if x >= int64(m) {
+			x = int64(m) - 1
+		}
+		if y >= int64(m) {
+			y = int64(m) - 1
+		}
+		aim := func(d int) rc.Program {
+			d = ((d % m) + m) % m
+			return rc.Program{Items: []rc.Item{ins("DJN", "$", 0, "#", x), ins("DJN", "$", -1, "#", y), ins("MOV", "$", 2, "$", int64(((d-2)%m+m)%m)), ins("JMP", "$", 0, "$", 0), ins("DAT", "#", 0, "#", 0)}}
+		}
+		if rapid.Bool().Draw(t, "bsfirst") {
+			c.P1, c.Fam1, c.P2, c.Fam2 = split, "splitter", aim(m-f), "sniper"
+		} else {
+			c.P1, c.Fam1, c.P2, c.Fam2 = aim(f), "sniper", split, "splitter"
+		}
+	}
+	if multiplier {
+		x := int64(rapid.IntRange(65537, m-1).Draw(t, "mulx"))
+		y := int64(rapid.IntRange(65537, m-1).Draw(t, "muly"))
+		r := (x * y) % int64(m)
+		if rapid.IntRange(0, 3).Draw(t, "mulwrong") == 0 {
+			r = (r + 1) % int64(m) // then the warrior dies
+		}
+		// B of the fourth cell becomes y*x - r; zero: loop for ever, else run into the DAT
+		mul := rc.Program{Items: []rc.Item{
+			{Kind: rc.KInstr, Op: "MUL", Mod: "AB", AMode: "#", A: rc.Toks(rc.N(x)), BMode: "$", B: rc.Toks(rc.N(3))},
+			{Kind: rc.KInstr, Op: "SUB", Mod: "AB", AMode: "#", A: rc.Toks(rc.N(r)), BMode: "$", B: rc.Toks(rc.N(2))},
+			{Kind: rc.KInstr, Op: "JMZ", Mod: "B", AMode: "$", A: rc.Toks(rc.N(0)), BMode: "$", B: rc.Toks(rc.N(1))},
+			{Kind: rc.KInstr, Op: "DAT", Mod: "F", AMode: "#", A: rc.Toks(rc.N(0)), BMode: "#", B: rc.Toks(rc.N(y))},
+		}}
+		sit := rc.Program{Items: []rc.Item{ins("JMP", "$", 0, "$", 0)}}
+		if rapid.Bool().Draw(t, "mulfirst") {
+			c.P1, c.Fam1, c.P2, c.Fam2 = mul, "multiplier", sit, "survivor"
+		} else {
+			c.P1, c.Fam1, c.P2, c.Fam2 = sit, "survivor", mul, "multiplier"
+		}
+	}
+	if !bombedSplitter && !multiplier && l >= 3 && gen.Rare(t, "trapvssplitter", 3) {
 		// a warrior that dies as soon as a foreign process runs through its unused first cell,
 		// against one that fills its whole process queue: any task that strays is noticed
 		trap := rc.Program{Items: []rc.Item{ins("MOV", "$", 2, "$", 1), ins("JMP", "$", 0, "$", 0), ins("DAT", "#", 0, "#", 0), {Kind: rc.KOrg, Expr: rc.Toks(rc.N(1))}}}
@@ -238,7 +311,7 @@ func genCliCase(t *rapid.T) cliCase {
 			c.P1, c.Fam1, c.P2, c.Fam2 = split, "splitter", trap, "trap"
 		}
 	}
-	if l >= 3 && rapid.IntRange(0, 7).Draw(t, "sharednames") == 0 {
+	if !bombedSplitter && !multiplier && l >= 3 && rapid.IntRange(0, 7).Draw(t, "sharednames") == 0 {
 		// the two files use the same identifier for different things: an EQU in one,
 		// a label in the other (each file must be assembled on its own)
 		nm := rapid.SampledFrom([]string{"loop", "x", "start", "step"}).Draw(t, "shared")
